@@ -234,6 +234,14 @@ Definition inorder_index (s : sheet) : nat :=
   | None => first_style s 0
   end.
 
+(* the insertion is undone when the clean-up is refused (the rule list is
+   saved before the insertion and put back) *)
+Definition clean_or_restore (s s' : sheet) : sheet * res :=
+  match clean s' with
+  | (t, Ok) => (t, Ok)
+  | (_, e) => (s, e)
+  end.
+
 Definition insert_ns (s : sheet) (p u : str) (idx : option nat) : sheet * res :=
   let pos : nat + res :=
       match idx with
@@ -252,8 +260,8 @@ Definition insert_ns (s : sheet) (p u : str) (idx : option nat) : sheet * res :=
   | inl i =>
     match lookup (view s) p with
     | Some u' => if str_eqb u' u then (s, Ok)       (* "no doublettes" *)
-                 else clean (insert_at i (RNs p u) s)
-    | None => clean (insert_at i (RNs p u) s)
+                 else clean_or_restore s (insert_at i (RNs p u) s)
+    | None => clean_or_restore s (insert_at i (RNs p u) s)
     end
   end.
 
